@@ -53,13 +53,16 @@ Upd(f, key, val) == IF key \in DOMAIN f THEN [f EXCEPT ![key] = val] ELSE f @@ (
 Get(f, key, dflt) == IF key \in DOMAIN f THEN f[key] ELSE dflt
 
 SrcTipNow(o, p) == IF HasRef(o, p.src) THEN {RefOf(o, p.src).c} ELSE {}
+\* a tip is followed from the moment it is the source tip while on NO target yet (the tip of a backport, already
+\* merged into the later versions through another pull request, is not new work of this pull request)
+FreshTip(o, a, p) == {c \in SrcTipNow(o, p) : c \in DOMAIN a /\ ~ \E t \in Targets(o, p) : t.c \in DOMAIN a /\ Leq(a, c, t.c)}
 
 RECURSIVE FoldPrs(_, _, _, _)
 \* srcTips / srcHist updated for every user PR of the observation
 FoldPrs(f, S, o, a) ==
   IF S = {} THEN f
   ELSE LET p == CHOOSE x \in S : TRUE
-           t == SrcTipNow(o, p)
+           t == FreshTip(o, a, p)
        IN FoldPrs(Upd(f, p.id, Get(f, p.id, {}) \cup t), S \ {p}, o, a)
 RECURSIVE FoldHist(_, _, _, _)
 FoldHist(f, S, o, a) ==
